@@ -781,7 +781,8 @@ def one_case(ck, ci, rng):
                     off = rng.choice([0, len(data), rng.randint(0, len(data) + 30)])
                     w = rng.randbytes(70000 if big else rng.choice([0, 1, 5, 40, 200]))
                     datav.append((off, w))
-                nl = rng.choice([None, None, None, None, 0, rng.randint(0, len(data) + 1), len(data) + rng.randint(1, 50)])
+                nl = rng.choice([None, None, None, None, 0, rng.randint(0, len(data) + 1), max(1, len(data) - rng.randint(1, 30)),
+                                 len(data) + rng.randint(1, 50)])      # (shrinking leaves a container larger than the data)
                 if nl == 0:
                     deletes = True
                 twv_a[n] = (testv, datav, nl)
@@ -911,7 +912,7 @@ def one_case(ck, ci, rng):
             ck.case("time", key=(ci, len(oplog), dt), nontrivial=bool(had_open))
 
         OPS = [(op_alloc, 10), (op_write, 26), (op_finish, 6), (op_abort, 3), (op_read, 14), (op_read_whole, 4),
-               (op_list, 4), (op_lease, 7), (op_advise, 4), (op_rtw, 14), (op_readv, 8), (op_mut_chunk, 4),
+               (op_list, 4), (op_lease, 7), (op_advise, 4), (op_rtw, 14), (op_readv, 8), (op_mut_chunk, 7),
                (op_mut_list, 4), (op_time, 5), (op_version, 1)]
         fns = [f for f, _w in OPS]
         wts = [w for _f, w in OPS]
@@ -936,7 +937,9 @@ def one_case(ck, ci, rng):
         shutil.rmtree(tmpb, ignore_errors=True)
 
 
-# MUST_CATCH (selftest/breaks_c31.py, 31 planted breaks + seeded/C31-1 + seeded/C24-3, all caught):
+# MUST_CATCH (selftest/breaks_c31.py, 32 planted breaks + seeded/C31-1..6, C24-3, C24-6, all caught):
+#   adapter slot_readv stops collecting at the first missing share number (= seeded/C31-6) -- permuted
+#     present/absent share lists
 #   read-test-write test vectors: size taken from len(specimen) on the server (= seeded/C24-3: the 'share must be
 #     new' test (0, 1, b"") matches any existing share) or in the adapter -- size > / < len(specimen) families
 #   multi-block PATCH pre-check: running offset lost (= seeded/C31-1, identical re-send > 64 KiB gets 409); only the
